@@ -181,9 +181,12 @@ pub fn run(ctx: &mut Ctx) {
         let nf = rng.below(9) as usize;
         let mut val = 0;
         let mut fields = Vec::new();
+        // one case in four draws its values from two spellings only: repeated fields that are byte-identical
+        let few_values = rng.chance(1, 4);
         for _ in 0..nf {
             val += 1;
-            fields.push(format!("{}:{}", hex(rng.pick(&pool).as_bytes()), hex(format!("v{val}").as_bytes())));
+            let v = if few_values { format!("w{}", rng.below(2)) } else { format!("v{val}") };
+            fields.push(format!("{}:{}", hex(rng.pick(&pool).as_bytes()), hex(v.as_bytes())));
         }
         let nops = rng.range(1, 12) as usize;
         let mut ops = Vec::new();
@@ -192,7 +195,8 @@ pub fn run(ctx: &mut Ctx) {
             ops.push(match rng.below(5) {
                 0 => {
                     val += 1;
-                    format!("add:{}:{}", name, hex(format!("v{val}").as_bytes()))
+                    let v = if few_values { format!("w{}", rng.below(2)) } else { format!("v{val}") };
+                    format!("add:{}:{}", name, hex(v.as_bytes()))
                 }
                 1 => format!("go:{name}"),
                 2 => format!("ga:{name}"),
